@@ -1,9 +1,12 @@
 (** extraction of the C17 model: the storage machine (as-is) and the layout specification, 64-bit words *)
 Require Import FastZ.
-From Dashu Require Import Base.Prelude Base.Words Int.StorageModel.
+From Dashu Require Import Base.Prelude Base.Words Int.StorageModel Int.StorageOps2.
 Definition w64 : Z := 64.
 Definition maxcap64 : Z := (2 ^ 64 - 1) / 64.
 Definition step64 := step w64 maxcap64.
+(** the extended machine (round 3): pow, sqr, gcd (the side the Lehmer kernel leaves the result in is an input), div_rem,
+    next_power_of_two, clear_high_bits, split_bits *)
+Definition step2_64 (sw : bool) := step2 w64 maxcap64 (gk_inst w64 sw).
 Definition drop_all64 := drop_all.
 Definition layout_ok64 := layout_ok_b w64 maxcap64.
 Definition repr_ok64 := repr_ok_b w64 maxcap64.
@@ -11,5 +14,5 @@ Definition rvalue64 := rvalue w64.
 Definition default_capacity64 := default_capacity maxcap64.
 Definition max_compact_capacity64 := max_compact_capacity maxcap64.
 Extraction "model.ml"
-  step64 drop_all64 layout_ok64 repr_ok64 rvalue64 signed_cap rwords rcap mem0 zero
+  step64 step2_64 drop_all64 layout_ok64 repr_ok64 rvalue64 signed_cap rwords rcap mem0 zero
   default_capacity64 max_compact_capacity64 nlive nwords.
